@@ -61,6 +61,8 @@ DRIVER = "drv_c04"
 PROPS = ["Ptk.Props.C04", "Ptk.Props.C04Rule", "Ptk.Props.C04F", "Ptk.Props.C04KB", "Ptk.Props.C04W",
          "Ptk.Props.C04W2", "Ptk.Props.C04World"]
 SERIAL = False
+ANCHORS = ["src/prompt_toolkit/key_binding/key_processor.py", "src/prompt_toolkit/key_binding/key_bindings.py",
+           "src/prompt_toolkit/filters/base.py", "src/prompt_toolkit/filters/utils.py", "src/prompt_toolkit/cache.py"]
 TECHNIQUE = "Lean 4 proof about an executable model + differential correspondence + property oracle"
 LEVEL_TEXT = ("Lean 4 theorems over an executable model of KeyProcessor._process / process_keys (generic in the "
               "key-binding object, the filters and the handlers), of KeyBindings with its version-invalidated "
@@ -95,7 +97,7 @@ RULE = ("E3: every filter expression built by <=2 (quick) / <=3 (thorough) appli
 EXHAUSTIVE = True
 EXHAUSTIVE_SCOPE = {
     "quick": "E3 depth 2 over {c0,c1,True,False}; E2 14 structures x 10^3 op sequences; E1 28x28 binding pairs x 14 key strings x 2 timeout modes; E4 7x7 pairs x 6 handler behaviours x 84 key strings (len<=3 over 4 keys)",
-    "thorough": "E3 depth 3 over {c0,c1,True}; E2 14 structures x 10^4 op sequences; E1 108x108 binding pairs x 30 key strings x 3 timeout modes + 12000 sampled triples/quadruples; E4 18x18 pairs x 6 behaviours x 84 key strings (len<=3 over 4 keys)"}
+    "thorough": "E3 depth 3 over {c0,c1,True}; E2 14 structures x 10^4 op sequences; E1 108x108 binding pairs x 30 key strings x 2-3 timeout modes + 6000 sampled triples/quadruples; E4 18x18 pairs x 6 behaviours x 84 key strings (len<=3 over 4 keys)"}
 TRUSTED = ["harness/c04.py compares, after every operation, the printed structure of filters (incl. object identity of "
            "memoised results), binding lists, versions, and for every process_keys call the sequence of queue pops, "
            "before/after events, handler calls with key_sequence and previous_key_sequence, dropped keys, keys pushed "
@@ -1322,8 +1324,9 @@ def e1_cases(tier, rng):
         strings = list(key_strings(4))
         for b1 in var:
             for b2 in var:
-                yield e1_case([b1, b2], rng.random() < 0.5, rng.random() < 0.3, strings, [0, 1, 2])
-        for _ in range(12000):
+                yield e1_case([b1, b2], rng.random() < 0.5, rng.random() < 0.3, strings,
+                              [0, 1, 2] if rng.random() < 0.25 else [0, 1])
+        for _ in range(6000):
             yield e1_case([rng.choice(var) for _ in range(rng.choice([3, 3, 4]))], rng.random() < 0.5,
                           rng.random() < 0.3, strings, [rng.randrange(3)])
 
@@ -1516,7 +1519,7 @@ def cases(tier, rng):
     yield from e2_cases(tier, rng)
     yield from e1_cases(tier, rng)
     yield from e4_cases(tier, rng)
-    n = 1500 if tier == "quick" else 25000
+    n = 1500 if tier == "quick" else 12000
     for _ in range(n):
         yield dense_case(rng)
     for _ in range(n):
